@@ -286,16 +286,16 @@ type solveResult struct {
 	ms     int64
 }
 
-func runSolver(s SolverSpec, text string, dir, base string, timeoutSec int) solveResult {
+func runSolver(ctx context.Context, s SolverSpec, text string, dir, base string, timeoutSec int) solveResult {
 	file := filepath.Join(dir, base+"."+strings.Split(s.Name, "-")[0]+".smt2")
 	pre := "(set-option :produce-models true)\n" + s.Pre
 	if err := os.WriteFile(file, []byte(pre+text), 0o644); err != nil {
 		return solveResult{"unknown", err.Error(), 0}
 	}
-	ctx, cancel := context.WithTimeout(context.Background(), time.Duration(timeoutSec+2)*time.Second)
+	cctx, cancel := context.WithTimeout(ctx, time.Duration(timeoutSec+2)*time.Second)
 	defer cancel()
 	args := s.Cmd(file, timeoutSec)
-	cmd := exec.CommandContext(ctx, args[0], args[1:]...)
+	cmd := exec.CommandContext(cctx, args[0], args[1:]...)
 	var out bytes.Buffer
 	cmd.Stdout = &out
 	cmd.Stderr = &out
@@ -312,8 +312,8 @@ func runSolver(s SolverSpec, text string, dir, base string, timeoutSec int) solv
 	return solveResult{st, raw, ms}
 }
 
-// Discharge decides one obligation.  quick: first definite answer from the solver chain.
-// thorough: two different solvers must agree.
+// Discharge decides one obligation.  All solvers are raced; the first definite answer wins
+// (need == 1) or `need` different solvers must agree (thorough).
 func Discharge(o *Obligation, outDir string, timeoutSec int, need int) {
 	if o.Unsupported != "" {
 		o.Status = "unsupported"
@@ -323,41 +323,65 @@ func Discharge(o *Obligation, outDir string, timeoutSec int, need int) {
 	os.MkdirAll(outDir, 0o755)
 	o.SmtFile = filepath.Join(outDir, base+".smt2")
 	os.WriteFile(o.SmtFile, []byte(o.Text), 0o644)
-	order := solvers
-	if o.Quantified {
-		order = []SolverSpec{solvers[0], solvers[2], solvers[1]}
+	type named struct {
+		s SolverSpec
+		r solveResult
 	}
-	agree := 0
-	var verdict string
-	for _, s := range order {
-		r := runSolver(s, o.Text, outDir, base, timeoutSec)
-		o.TimeMs += r.ms
-		if r.status == "unknown" {
-			if o.Raw == "" {
-				o.Raw = r.raw
+	ctx, cancel := context.WithCancel(context.Background())
+	defer cancel()
+	ch := make(chan named, len(solvers))
+	t0 := time.Now()
+	// quick first attempt with the usually fastest solver alone keeps process count low
+	first := runSolver(ctx, solvers[0], o.Text, outDir, base, 2)
+	var results []named
+	if first.status != "unknown" {
+		results = append(results, named{solvers[0], first})
+	}
+	agreeNeeded := need
+	if len(results) < agreeNeeded && !(len(results) == 1 && results[0].r.status == "sat" && !o.Cover) {
+		pending := 0
+		for i, s := range solvers {
+			if i == 0 && first.status != "unknown" {
+				continue
 			}
-			continue
+			pending++
+			go func(s SolverSpec) { ch <- named{s, runSolver(ctx, s, o.Text, outDir, base, timeoutSec)} }(s)
 		}
-		if verdict == "" {
-			verdict = r.status
-			o.Solver = s.Name
-			o.Raw = r.raw
-			if r.status == "sat" {
-				o.Model = parseModel(r.raw)
+		for pending > 0 {
+			nr := <-ch
+			pending--
+			if nr.r.status == "unknown" {
+				if o.Raw == "" {
+					o.Raw = nr.r.raw
+					if strings.TrimSpace(o.Raw) == "" {
+						o.Raw = "timeout"
+					}
+				}
+				continue
 			}
-		} else if verdict != r.status {
+			results = append(results, nr)
+			if len(results) >= agreeNeeded || (nr.r.status == "sat" && !o.Cover) {
+				break
+			}
+		}
+		cancel()
+	}
+	o.TimeMs = time.Since(t0).Milliseconds()
+	verdict := ""
+	for _, nr := range results {
+		if verdict == "" {
+			verdict = nr.r.status
+			o.Solver = nr.s.Name
+			o.Raw = nr.r.raw
+			if nr.r.status == "sat" {
+				o.Model = parseModel(nr.r.raw)
+			}
+		} else if verdict != nr.r.status {
 			o.Status = "unknown"
-			o.Raw = "solver disagreement: " + o.Solver + " says " + verdict + ", " + s.Name + " says " + r.status
+			o.Raw = "solver disagreement: " + o.Solver + " says " + verdict + ", " + nr.s.Name + " says " + nr.r.status
 			return
 		}
-		o.Solvers = append(o.Solvers, s.Name)
-		agree++
-		if agree >= need {
-			break
-		}
-		if verdict == "sat" && !o.Cover {
-			break // a counterexample does not need a second opinion; it is replayed instead
-		}
+		o.Solvers = append(o.Solvers, nr.s.Name)
 	}
 	switch {
 	case verdict == "":
@@ -369,11 +393,9 @@ func Discharge(o *Obligation, outDir string, timeoutSec int, need int) {
 			o.Status = "vacuous"
 		}
 	case verdict == "unsat":
-		if agree >= need {
-			o.Status = "discharged"
-		} else {
-			o.Status = "discharged"
-			o.Bounded = "" // single solver
+		o.Status = "discharged"
+		if len(results) < need {
+			o.Bounded = "single-solver"
 		}
 	default:
 		o.Status = "failed"
